@@ -31,9 +31,27 @@ ZOO = [b"[]", b"{}", b"", b"   ", b"null", b"1", b"[1]", b"[[]]", b"[{}]", b'{"j
        b"[" * 200 + b"]" * 200, b'{"id":0,"result":' + b"[" * 300 + b"]" * 300 + b"}", b'[{"jsonrpc":"2.0","method":5}]']
 
 
+def long_multibyte_frames():
+    """valid JSON that is not a JSON-RPC message, longer than every plausible echo/log cap, with a multi-byte UTF-8 character
+    straddling each round byte offset (whatever the client does with the text of an unparseable message -- echo it in the
+    disconnect cause, cut it, log it -- it must not panic and must report the cause)"""
+    out = []
+    for T in (64, 128, 256, 512, 1000, 1024, 2048, 4096, 8192, 10000, 65536):
+        for ch in ("\u00e9", "\u65e5", "\U0001F600"):
+            w = len(ch.encode("utf-8"))
+            for klen in (1, 2, 3, 4):
+                head = ('{"%s":"' % ("k" * klen)).encode()
+                n = (T - len(head)) // w + 8
+                out.append(head + (ch * n).encode("utf-8") + b'"}')
+    return out
+
+
 def zoo_histories(ctx):
     hs = []
-    for z in ZOO:
+    frames = list(ZOO)
+    lm = long_multibyte_frames()
+    frames += lm if ctx.thorough else [f for i, f in enumerate(lm) if len(f) < 12000]
+    for z in frames:
         for pre in (0, 1, 2):
             H = C.new_hist(ctx.rng, gate=0)
             for _ in range(pre):
@@ -43,6 +61,7 @@ def zoo_histories(ctx):
             H.op_call()
             H.add("next 1", kind="next")
             H.clean = False
+            H.zoo = True
             hs.append(H)
     return hs
 
@@ -57,7 +76,8 @@ def run(ctx):
     import os
     dbg = vlib.rust_bin("clihist", "debug")
     if os.path.exists(dbg):
-        sub = hs[:len(ZOO) * 3] + hs[len(ZOO) * 3:][:ctx.scale(300, 5000)]
+        nz = sum(1 for H in hs if getattr(H, 'zoo', False))
+        sub = hs[:nz] + hs[nz:][:ctx.scale(300, 5000)]
         lines = [H.text() for H in sub]
         rd = vlib.run_lines([dbg], lines, min_shard=20)
         rr = vlib.run_lines([vlib.rust_bin("clihist")], lines, min_shard=20)
